@@ -331,7 +331,6 @@ def merge(run, fam, results):
 def replay_sep(ctx, cands):
     from .cli import run_jawk, show
     for c in cands:
-        if c.unmodelled: c.status = 'inconclusive'; continue
         mv = c.model; sep = bytes.fromhex(mv['sep_hex']).decode('latin-1')
         A = {'lit': '1', 'ext': '.a', 'var': ':v', 'mac': '@m', 'sel': '/n/', 'call': '(size "xy")'}[mv['a']]
         B = {'lit': '1', 'ext': '.a', 'var': ':v', 'mac': '@m', 'sel': '/n/', 'call': '(size "xy")'}[mv['b']]
@@ -353,6 +352,7 @@ OPTION_READERS = {
     'Selection': (r'^selection::<impl at [^>]*>::from_str$', 'name'),
     'Sorter': (r'^sorters::<impl at [^>]*>::from_str$', 'direction'),
     'PreSet': (r'^pre_sets::<impl at [^>]*>::from_str$', 'eof'),
+    'PreSetMacro': (r'^pre_sets::<impl at [^>]*>::from_str$', 'eof'),
 }
 
 
@@ -360,18 +360,18 @@ def _tail_task(args):
     ctx, opt, ntail = args
     body_rx, kind = OPTION_READERS[opt]
     tail = [z3.BitVec(f't{i}', 8) for i in range(ntail)]
-    text = [z3.BitVecVal(x, 8) for x in (b'v=1' if opt == 'PreSet' else b'.a')] + tail
+    text = [z3.BitVecVal(x, 8) for x in (b'v=1' if opt == 'PreSet' else b'@m=1' if opt == 'PreSetMacro' else b'.a')] + tail
     fin = []
     sc = expr_scenario(ctx, text, fin); ex = sc.ex
     st = State()
     src = seqobj(st, 'String', [BV(t) for t in text])
     for t in tail: st.pc.append(z3.And(z3.ULT(t, 0x80), t != 0))
     # the first tail byte must end the key `.a` (otherwise it is part of the key, which is a different, valid expression)
-    if tail: st.pc.append(z3.Or(isws(tail[0]), tail[0] == ord('=')) if opt != 'PreSet' else isws(tail[0]))
+    if tail: st.pc.append(z3.Or(isws(tail[0]), tail[0] == ord('=')) if not opt.startswith('PreSet') else isws(tail[0]))
     F = ex.find(body_rx)
     KPANICS.clear()
     ex.new_frame(st, F, [slot(st, src, 'src*')])
-    if opt == 'PreSet':
+    if opt.startswith('PreSet'):
         for t in tail: st.pc.append(t != ord('='))
     done = ex.run(st) + sc.extra + list(KPANICS)
     res = {'obl': 0, 'ok': 0, 'cands': [], 'paths': 0, 'samples': []}
@@ -441,11 +441,10 @@ def option_tails(ctx):
     results = pmap(_tail_task, tasks)
     merge(run, fam, results)
     from .cli import run_jawk, show
-    OPT = {'Filter': '--filter', 'Splitter': '--split-by', 'Grouper': '--group-by', 'Selection': '--select', 'Sorter': '--sort-by', 'PreSet': '--set'}
+    OPT = {'Filter': '--filter', 'Splitter': '--split-by', 'Grouper': '--group-by', 'Selection': '--select', 'Sorter': '--sort-by', 'PreSet': '--set', 'PreSetMacro': '--set'}
     for c in fam.candidates:
-        if c.unmodelled: c.status = 'inconclusive'; continue
         tail = bytes.fromhex(c.model['tail_hex']).decode('latin-1')
-        argv = [OPT[c.model['opt']], ('v=1' if c.model['opt'] == 'PreSet' else '.a') + tail]
+        argv = [OPT[c.model['opt']], ('v=1' if c.model['opt'] == 'PreSet' else '@m=1' if c.model['opt'] == 'PreSetMacro' else '.a') + tail]
         r = run_jawk(ctx, argv, b'{"a":true}')
         c.replay = {'argv': argv, 'rc': r['rc'], 'stdout': show(r['stdout']), 'stderr': show(r['stderr'])[-200:]}
         accepted = r['rc'] == 0
@@ -502,7 +501,6 @@ def truncation(ctx):
     run.absorb(ex)
     from .cli import run_jawk, show
     for c in fam.candidates:
-        if c.unmodelled: c.status = 'inconclusive'; continue
         text = '"' + 'a' * (c.model['pre'] - 1) + bytes.fromhex(c.model['free_hex']).decode('utf-8') + 'bb"'
         r = run_jawk(ctx, ['--select', text + '=x'], b'1')
         c.replay = {'argv': ['--select', text + '=x'], 'rc': r['rc'], 'stderr': show(r['stderr'])[-300:]}
